@@ -14,11 +14,12 @@ CONSTANTS
  SameSubject = TRUE
  MixSameArt = TRUE
  LockPut = TRUE
- LockDel = FALSE
- LockDelEarly = FALSE
+ LockDel = TRUE
+ LockDelEarly = TRUE
  ObsFilters = {"none", "t1", "x"}
  ListConc = FALSE
- CowIndex = FALSE
+ CowIndex = TRUE
+ InvAfterDel = TRUE
 INIT GInit
 NEXT GNext
 INVARIANTS Emit
